@@ -58,7 +58,11 @@ fn g_vec24() -> Vec<Vec<u8>> {
     vec![<Vec<u8> as NewByteArray<24>>::gen()]
 }
 fn g_randombytes_buf() -> Vec<Vec<u8>> {
-    vec![randombytes_buf(32), randombytes_buf(17)]
+    vec![randombytes_buf(32), randombytes_buf(17), randombytes_buf(1)]
+}
+fn g_randombytes_buf_long() -> Vec<Vec<u8>> {
+    // lengths around and beyond typical OS request limits (256 bytes for getentropy, page size)
+    vec![randombytes_buf(255), randombytes_buf(256), randombytes_buf(257), randombytes_buf(300), randombytes_buf(1000), randombytes_buf(4097)]
 }
 fn g_copy_randombytes() -> Vec<Vec<u8>> {
     let mut a = [0u8; 32];
@@ -66,6 +70,20 @@ fn g_copy_randombytes() -> Vec<Vec<u8>> {
     let mut b = vec![0u8; 100];
     copy_randombytes(&mut b);
     vec![a.to_vec(), b]
+}
+fn g_copy_randombytes_long() -> Vec<Vec<u8>> {
+    let mut out = Vec::new();
+    for n in [258usize, 511, 512, 513, 777, 4096, 5000] {
+        let mut b = vec![0u8; n];
+        copy_randombytes(&mut b);
+        out.push(b);
+    }
+    out
+}
+fn g_long_containers() -> Vec<Vec<u8>> {
+    let ph: PwHash<Vec<u8>, Vec<u8>> = PwHash::hash(&b"password".to_vec(), min_cfg().with_salt_length(300)).unwrap();
+    let (_, salt, _) = ph.into_parts();
+    vec![StackByteArray::<300>::gen().as_slice().to_vec(), <[u8; 600] as NewByteArray<600>>::gen().to_vec(), <Vec<u8> as NewByteArray<257>>::gen(), salt]
 }
 fn g_secretbox_keygen() -> Vec<Vec<u8>> {
     let mut k = [0u8; 32];
@@ -245,6 +263,9 @@ fn entry_points() -> Vec<(&'static str, Gen)> {
         ("Vec<u8>::gen<24>", g_vec24),
         ("randombytes_buf", g_randombytes_buf),
         ("copy_randombytes", g_copy_randombytes),
+        ("randombytes_buf(255..4097)", g_randombytes_buf_long),
+        ("copy_randombytes(258..5000)", g_copy_randombytes_long),
+        ("gen()/salt of 257..600 bytes", g_long_containers),
         ("crypto_secretbox_keygen(+inplace)", g_secretbox_keygen),
         ("crypto_auth_keygen", g_auth_keygen),
         ("crypto_onetimeauth_keygen", g_onetimeauth_keygen),
